@@ -590,6 +590,9 @@ func (ex *Exec) specCall(call *ast.CallExpr, info *types.Info, env *SpecEnv, pc 
 			return BoolV{Or(Eq(lv.Held, BV(2, 8)), Eq(lv.Held, BV(1, 8)))}
 		}
 		return BoolV{Eq(lv.Held, BV(0, 8))}
+	case "past":
+		t := arg(0).(TimeV).T
+		return BoolV{And(BVSle(BV(0, 64), t), BVSle(t, env.st.get("ghost|clock", SBV(64))))}
 	case "closed":
 		ch := arg(0).(ChanV)
 		return BoolV{Select(env.st.get("chclosed", SArr(SRef, SBool)), ch.Ref)}
@@ -807,6 +810,13 @@ func (fr *Frame) contractCall(ct *Contract, fn *ssa.Function, args []Value, pc *
 		ex.oblige("call-requires", fmt.Sprintf("%s.%d", contractName(ct), cl.Index), pos, pc, g, "requires "+cl.Text)
 	}
 	pre := st.clone()
+	// the callee may read the clock: time moves on
+	{
+		oldc := st.get("ghost|clock", SBV(64))
+		nc := Fresh("clock.after."+ct.Name, SBV(64))
+		ex.assume(pc, And(BVSle(oldc, nc), BVSlt(nc, BV(1<<62, 64))))
+		st.set("ghost|clock", nc)
+	}
 	// frame
 	env.st = st
 	for _, cl := range ct.Clauses {
